@@ -43,7 +43,7 @@ def log_uniform_ms(rng, lo=1, hi=30 * 86400 * 1000):
     return int(math.exp(rng.uniform(math.log(lo), math.log(hi))))
 
 
-def check_commit_note(ex, repo, commit, sessions, two_sided=True, notes=None):
+def check_commit_note(ex, repo, commit, sessions, two_sided=True, notes=None, unadded_true_ok=False):
     """Note of `commit` against the Ledger: exactly the AI lines that commit added."""
     w = ex.w
     notes = notes or Notes(w, repo)
@@ -66,6 +66,12 @@ def check_commit_note(ex, repo, commit, sessions, two_sided=True, notes=None):
         nm = noteparse.line_map(parsed, path) if parsed else {}
         for n in sorted(nm):
             if n not in added:
+                if unadded_true_ok and 0 < n <= len(lines):
+                    # (under an injected fault: a note that also lists a line its commit did not add invents nothing as
+                    # long as that line really is the session's - blame only consults the lines the commit added)
+                    exp0 = ex.ledger.who(lines[n - 1])
+                    if exp0 is None or hash_to_session.get(nm[n]) in exp0:
+                        continue
                 return {"monitor": "ledger.note", "class": "listed_line_not_added",
                         "detail": {"path": path, "line": n, "commit": commit}}
         for n in sorted(added):
